@@ -452,6 +452,8 @@ pub struct CheckOpts {
     pub jobs: usize,
     pub runs_override: Option<u64>,
     pub write_evidence: bool,
+    /// extra coverage object merged into the evidence (e.g. the Miri cross-check summary)
+    pub extra: Option<Value>,
 }
 
 pub fn check_main(sc: &'static dyn Scenario, o: &CheckOpts) -> i32 {
@@ -704,6 +706,10 @@ pub fn check_main(sc: &'static dyn Scenario, o: &CheckOpts) -> i32 {
                 "repo_head": repo_head(),
             }
         });
+        let mut ev = ev;
+        if let Some(x) = &o.extra {
+            ev["coverage"]["cross_check"] = x.clone();
+        }
         let dir = verif_dir().join("evidence");
         std::fs::create_dir_all(&dir).ok();
         let mut f = std::fs::File::create(dir.join(format!("{}.json", id))).expect("evidence file");
